@@ -958,7 +958,154 @@ def run(ck):
                                 rng.choice([True, True, False, ONLY_FILES]), rng.random() < .2))
             guarded("no-write history", {}, history, rng.choice(parents), ops, "random")
 
-    # ---- run (E), (D), (F)
+
+    # ------------------------------------------------------------------ (G) read-only views of write nodes WITH keys
+    # A write node that created the file, or has written since it was opened, holds the RSA signing key (the write
+    # key is H(signing key)).  Nothing derived from it for read-only use may carry the write key or the signing key:
+    # judged through the accessors and through a bounded reflective scan of the derived object graph (the scan is
+    # the oracle for "carries"; the attribute path is the witness).
+    SCAN_MODULES = ("allmydata.mutable.filenode", "allmydata.dirnode", "allmydata.uri", "allmydata.immutable.",
+                    "allmydata.unknown", "allmydata.blacklist")
+
+    def scan(root, secrets, is_privkey, limit=6000, maxdepth=6):
+        """-> [(secret name, attribute path)] for every place of the object graph below `root` that holds a secret.
+        Only cap/node objects and plain containers are traversed (never the shared NodeMaker / broker / history)."""
+        found, seen, stack = [], set(), [(root, "<derived>", 0)]
+        while stack and len(seen) < limit:
+            o, path, depth = stack.pop()
+            if id(o) in seen or o is None or isinstance(o, (bool, int, float, str)):
+                continue
+            seen.add(id(o))
+            for name, sec in secrets:
+                if sec is None:
+                    continue
+                if o is sec:
+                    found.append((name, path))
+                elif isinstance(sec, bytes) and isinstance(o, (bytes, bytearray)) and sec in bytes(o):
+                    found.append((name, path))
+                elif not isinstance(sec, bytes) and is_privkey(o) and is_privkey(o) == is_privkey(sec):
+                    found.append((name, path))
+            if depth >= maxdepth:
+                continue
+            if isinstance(o, dict):
+                for k_, v_ in list(o.items())[:200]:
+                    stack.append((k_, path + ".<key>", depth + 1))
+                    stack.append((v_, "%s[%r]" % (path, k_ if isinstance(k_, (str, int)) else "..."), depth + 1))
+            elif isinstance(o, (list, tuple, set, frozenset)):
+                for i_, v_ in enumerate(list(o)[:200]):
+                    stack.append((v_, "%s[%d]" % (path, i_), depth + 1))
+            elif hasattr(o, "__dict__") and type(o).__module__.startswith(SCAN_MODULES):
+                for k_, v_ in vars(o).items():
+                    stack.append((v_, path + "." + k_, depth + 1))
+        return found
+
+    def keyed_part(fmt):
+        from vf.grid import VGrid, KEYPOOL
+        from allmydata.interfaces import SDMF_VERSION, MDMF_VERSION
+        from allmydata.mutable.publish import MutableData
+        from allmydata.crypto import rsa
+        version = {"SDMF": SDMF_VERSION, "MDMF": MDMF_VERSION}[fmt]
+
+        def der(o):
+            if isinstance(o, rsa.PrivateKey):
+                try:
+                    return rsa.der_string_from_signing_key(o)
+                except Exception:   # noqa
+                    return None
+            return None
+
+        KEYPOOL.rewind()
+        g = VGrid(nservers=3, seed=rng.getrandbits(32), keep_log=False)
+        try:
+            c0, c1 = g.make_client(k=1, happy=1, n=2), g.make_client(k=1, happy=1, n=2)
+
+            def ok(d, what):
+                st, res = g.wait(d)
+                if st != "ok":
+                    raise RuntimeError("%s did not succeed on the honest grid: %s %r" % (what, st, res))
+                return res
+
+            def judge_views(w, client, scenario, expect_privkey):
+                """w: a write-capable node; check everything derived from it for read-only use."""
+                backing = w._node if type(w).__name__ == "DirectoryNode" else w
+                priv, wk, enc = backing.get_privkey(), backing.get_writekey(), backing.get_encprivkey()
+                if priv is not None:
+                    ck.hit("write-node-has-signing-key")
+                elif expect_privkey:
+                    ck.observe("write-node-without-signing-key:" + scenario)
+                secrets = [("write key", wk), ("signing key", priv), ("signing key (DER)", der(priv)),
+                           ("encrypted signing key", enc)]
+                views = [("get_readonly()", backing.get_readonly()),
+                         ("get_readonly().get_readonly()", backing.get_readonly().get_readonly()),
+                         ("create_from_cap(get_readonly_uri())", client.nodemaker.create_from_cap(w.get_readonly_uri())),
+                         ("create_from_cap(None, 'ro.'+get_readonly_uri())",
+                          client.nodemaker.create_from_cap(None, b"ro." + w.get_readonly_uri())),
+                         ("get_readcap()", w.get_readcap()), ("get_verify_cap()", w.get_verify_cap())]
+                if type(w).__name__ == "DirectoryNode":
+                    views.append(("DirectoryNode(over get_readonly() of the backing file)",
+                                  type(w)(backing.get_readonly(), client.nodemaker, None)))
+                for label, x in views:
+                    ck.mon("keyed-readonly-view")
+                    wit = {"format": fmt, "scenario": scenario, "derived_by": label, "derived_class": type(x).__name__}
+                    inner = getattr(x, "_node", x) if type(x).__name__ == "DirectoryNode" else x
+                    if hasattr(x, "is_readonly") and (not x.is_readonly() or write_uri_of(x) is not None):
+                        ck.violation("derived-node-claims-write-authority", "%s of a keyed write node (%s) is writeable"
+                                     % (label, scenario), wit)
+                    for acc, sname, key in (("get_privkey", "signing key", "derived-node-carries-signing-key"),
+                                            ("get_writekey", "write key", "derived-cap-leaks-secret")):
+                        f = getattr(inner, acc, None)
+                        if f is not None and f() is not None:
+                            ck.violation(key, "%s of a write node that holds its keys (%s, %s): %s() returns the %s"
+                                         % (label, fmt, scenario, acc, sname), dict(wit, accessor=acc))
+                    f = getattr(inner, "get_encprivkey", None)
+                    if f is not None and f() is not None:
+                        # ciphertext under the write key, readable from the shares by any reader: not a stronger secret
+                        ck.skip("derived-node-holds-encrypted-signing-key")
+                        ck.observe("derived-node-holds-encrypted-signing-key")
+                    for sname, path in scan(x, secrets, der):
+                        if sname == "encrypted signing key":
+                            ck.skip("derived-node-holds-encrypted-signing-key")
+                            ck.observe("derived-node-holds-encrypted-signing-key")
+                            continue
+                        ck.violation("derived-node-carries-signing-key" if sname.startswith("signing") else "derived-cap-leaks-secret",
+                                     "%s of a write node that holds its keys (%s, %s) carries the %s at %s"
+                                     % (label, fmt, scenario, sname, path), dict(wit, attribute_path=path, secret=sname))
+                    ck.case("keyed-view", key=("G", fmt, scenario, label))
+
+            data0, data1 = b"contents 0" * 50, b"contents 1" * 50
+            # (a) the node that created the file
+            rw = ok(c0.nodemaker.create_mutable_file(MutableData(data0), version=version), "create_mutable_file")
+            judge_views(rw, c0, "creator node", True)
+            # (b) opened from the write cap string by another client: fresh, after a read, after a write
+            rw2 = c1.nodemaker.create_from_cap(rw.get_uri())
+            judge_views(rw2, c1, "fresh node from the write cap", False)
+            if ok(rw2.download_best_version(), "download_best_version") != data0:
+                ck.observe("keyed-part-read-mismatch")
+            judge_views(rw2, c1, "after a read", False)
+            ok(rw2.overwrite(MutableData(data1)), "overwrite")
+            judge_views(rw2, c1, "after a write", True)
+            ro = rw2.get_readonly()
+            if ok(ro.download_best_version(), "download through the read-only view") != data1:
+                ck.observe("keyed-part-read-mismatch")
+            ck.mon("keyed-readonly-view")
+            for sname, path in scan(ro, [("write key", rw2.get_writekey()), ("signing key", rw2.get_privkey()),
+                                         ("signing key (DER)", der(rw2.get_privkey()))], der):
+                ck.violation("derived-node-carries-signing-key" if sname.startswith("signing") else "derived-cap-leaks-secret",
+                             "read-only view (%s) carries the %s at %s after its own read" % (fmt, sname, path),
+                             {"format": fmt, "scenario": "read-only view after its own read", "attribute_path": path})
+            ok(rw2.modify(lambda old, servermap, first_time: old + b"!"), "modify")
+            judge_views(rw2, c1, "after modify()", True)
+            # (c) a directory created by this client: its backing file holds the keys
+            dn = ok(c0.nodemaker.create_new_mutable_directory({}, version=version), "create_new_mutable_directory")
+            judge_views(dn, c0, "creator of a directory", True)
+            ok(dn.set_uri("child", rw.get_uri(), rw.get_readonly_uri()), "set_uri")
+            dn2 = c1.nodemaker.create_from_cap(dn.get_uri())
+            ok(dn2.set_uri("child2", None, rw.get_readonly_uri()), "set_uri")
+            judge_views(dn2, c1, "directory opened from its write cap, after an edit", True)
+        finally:
+            g.close()
+
+    # ---- run (E), (D), (F), (G)
     import atexit
     import os
     import shutil
@@ -978,6 +1125,9 @@ def run(ck):
     for rec in chains_c:
         guarded("ProhibitedNode chain (%s)" % rec[0][0], {"family": rec[0][0]}, wrapper_chk, rec)
     guarded("no-write histories", {}, run_histories)
+    for fmt in ("SDMF", "MDMF"):
+        with ck.watchdog(240, "keyed read-only views " + fmt):
+            guarded("read-only views of keyed write nodes (%s)" % fmt, {"format": fmt}, keyed_part, fmt)
 
     nD = 8 if ck.tier == "quick" else 60
     for rep in range(nD):
@@ -991,7 +1141,8 @@ def run(ck):
 
     shutil.rmtree(tmpd, ignore_errors=True)
     ck.exhaustive = False
-    ck.require_monitor("wrapper-chain", "no-write-link-invariant")
+    ck.require_monitor("wrapper-chain", "no-write-link-invariant", "keyed-readonly-view")
+    ck.require_reach("write-node-has-signing-key")
     ck.require_reach("prohibited-node", "prohibited-child-packed", "no-write-link", "no-write-link-retargeted-without-metadata")
     ck.require_monitor("derivation-chain", "node-chain", "derived-cap-usable", "secret-search", "authority-flags", "truth-table-cap",
                        "truth-table-node", "truth-table-consistent-cell", "unknown-node-oracle", "strip-prefix-reread",
@@ -1031,5 +1182,8 @@ def run(ck):
 #                                                                       readonly-dir-yields-writeable-child (packed as child)
 #  20. seeded C16-6: Adder.modify decides diminishing from the caller's new_metadata only (a kept no-write link
 #      retargeted with metadata=None holds the write cap)            -> no-write-link-holds-write-cap
+#  21. seeded C16-7: MutableFileNode.get_readonly() pre-populates the read-only node from a keyed write node and also
+#      copies _privkey/_encprivkey                                  -> derived-node-carries-signing-key
+#                                                                       (get_privkey() and scan path <derived>._privkey)
 #  inert (equivalent mutant, exit 0): "deep-immutable branch assigns rw_uri = given_rw_uri" alone -- given_rw_uri is
 #  always None there because the earlier branches already returned or moved it.
